@@ -24,6 +24,14 @@ class Reporter:
             data = json.load(open(kf_path))
             self.known = [k for k in data.get("findings", []) if k["property"] == prop]
         self.used_known = set()
+        self.config = "default"
+        self.configs = []
+        self.selftests = []
+
+    def begin_config(self, name, meta=None):
+        """instances recorded from now on come from this build configuration"""
+        self.config = name
+        self.configs.append({"name": name, "config": (meta or {}).get("config"), "bodies": (meta or {}).get("bodies"), "tree_hash": (meta or {}).get("tree_hash")})
 
     # ------------------------------------------------------------ declaration
     def rule(self, rid, desc):
@@ -34,14 +42,22 @@ class Reporter:
         self.not_decided = text
 
     # ------------------------------------------------------------ verdicts
+    def _add(self, rule, key, where, verdict, note):
+        # the same instance seen again in another build configuration is recorded once
+        for i in self.instances:
+            if i["rule"] == rule and i["key"] == key and i["verdict"] == verdict and i["config"] != self.config:
+                i["configs"] = sorted(set(i.get("configs", [i["config"]])) | {self.config})
+                return
+        self.instances.append({"rule": rule, "key": key, "where": where, "verdict": verdict, "note": note, "config": self.config})
+
     def ok(self, rule, key, where, note=""):
-        self.instances.append({"rule": rule, "key": key, "where": where, "verdict": "holds", "note": note})
+        self._add(rule, key, where, "holds", note)
 
     def violation(self, rule, key, where, msg):
-        self.instances.append({"rule": rule, "key": key, "where": where, "verdict": "violation", "note": msg})
+        self._add(rule, key, where, "violation", msg)
 
     def undecided_(self, rule, key, where, msg):
-        self.instances.append({"rule": rule, "key": key, "where": where, "verdict": "undecided", "note": msg})
+        self._add(rule, key, where, "undecided", msg)
 
     def note(self, msg):
         self.notes.append(msg)
@@ -135,6 +151,8 @@ class Reporter:
                         {"rule": r, "what": w, "measured": m, "floor": f} for (r, w, m, f) in self.floors
                     ],
                     "facts": facts_meta or {},
+                    "configs_analysed": self.configs,
+                    "checker_selftest": self.selftests,
                     "notes": self.notes,
                     "exhaustive": False,
                 },
